@@ -571,8 +571,49 @@ class Session:
         outs = (self.oracle() if b.which == 'oracle' else self.oracle_tu()).call(lines)
         bad = 0
         sample = None
+        compound = any(not (isinstance(a, (int, bool)) or (z3.is_const(a) and a.decl().kind() == z3.Z3_OP_UNINTERPRETED)) for a in b.args)
+        vsolver = None
+        if compound:
+            # arguments are terms over the encoding's symbols (e.g. If(is_some, 1, 0)): evaluate the encoding
+            # on a vector by asking the solver for a state with those argument values
+            vsolver = z3.Solver()
+            vsolver.set('timeout', 20000)
+            for a in E.assumptions:
+                vsolver.add(a)
         for v, line, out in zip(vecs, lines, outs):
             # encoding side
+            if compound:
+                vsolver.push()
+                for a, val in zip(b.args, v):
+                    if isinstance(a, (int, bool)):
+                        continue
+                    vsolver.add((a == bool(val)) if z3.is_bool(a) else (a == int(val)))
+                r = vsolver.check()
+                if r != z3.sat:
+                    vsolver.pop()
+                    continue
+                mdl = vsolver.model()
+                vsolver.pop()
+                ev = lambda t: const_val(mdl.eval(X.zbool(t) if (isinstance(t, bool) or z3.is_bool(t)) else X.zint(t), model_completion=True))
+                ep = ev(b.panic) if b.panic is not False else 0
+                if out.startswith('panic'):
+                    ok = (ep == 1)
+                elif out.startswith('ok'):
+                    got = b.parse(out.split()[1:])
+                    exp = [None if o is None else ev(o) for o in b.outs]
+                    ok = (ep == 0) and all(g is None or e is None or g == e for g, e in zip(got, exp))
+                else:
+                    ok = False
+                self.validated += 1
+                if sample is None:
+                    sample = {'line': line, 'native': out}
+                if not ok:
+                    bad += 1
+                    self.inconclusive.append('%s: translator validation mismatch on `%s`: native %s, encoding panic=%s outs=%s' % (
+                        oid, line, out, ep, [None if o is None else ev(o) for o in b.outs]))
+                    if bad >= 3:
+                        break
+                continue
             feasible = all(subst_eval(a, b.args, v) in (1, None) for a in E.assumptions if _mentions_only(a, b.args))
             if not feasible:
                 continue
